@@ -233,7 +233,11 @@ def ts(sec):
 
 def epoch(t):
     """Epoch seconds of a tz-aware pandas Timestamp (second resolution)."""
-    return int(t.value // 1000000000)
+    try:
+        return int(t.value // 1000000000)
+    except OverflowError:
+        import math
+        return int(math.floor(t.timestamp()))       # beyond the nanosecond range (years after 2262)
 
 
 def weekday(sec):
@@ -285,27 +289,79 @@ def finish_plan(plan, seed):
     plan["host_logging"] = "on" if (seed >> 7) % 3 == 0 else "off"
     plan["host_tz"] = HOST_TZS[(seed >> 11) % len(HOST_TZS)]
     plan["host_optimize"] = 1 if ((seed >> 17) % 10 == 0 and plan.get("world") != "repeat") else 0
+    # process-wide library state a host application may legitimately have changed before calling the library
+    plan["host_warnings"] = "error" if (seed >> 21) % (3 if plan.get("world") == "repeat" else 6) == 0 else None   # python -W error
+    plan["host_np_err"] = "raise" if (seed >> 25) % 6 == 0 else None              # numpy.seterr(all='raise')
+    plan["host_decimal"] = [None, None, None, None, None, "prec6", "round_down", "trap_inexact"][(seed >> 29) % 8]
+    plan["host_pandas"] = [None, None, None, None, "dayfirst", "copy_on_write"][(seed >> 33) % 6]
     if isinstance(plan.get("cfg"), dict):
-        for k in ("host_logging", "host_tz", "host_optimize"):
+        for k in HOST_KEYS:
             plan["cfg"][k] = plan[k]
     return plan
+
+
+HOST_KEYS = ("host_logging", "host_tz", "host_optimize", "host_warnings", "host_np_err", "host_decimal", "host_pandas")
+HOST_PLAIN = {"host_logging": "off", "host_tz": None, "host_optimize": 0, "host_warnings": None, "host_np_err": None,
+              "host_decimal": None, "host_pandas": None}
 
 
 _OPTIMIZED = [False]
 
 
+_HOST_NOW = {}
+
+
 def apply_host_state(d):
-    """Every run executes in its own child process, so process-global state is set from the plan."""
-    import logging
-    import os
-    import time
-    logging.disable(logging.NOTSET if d.get("host_logging") == "on" else logging.CRITICAL)
-    tz = d.get("host_tz")
-    if (tz or "UTC") != os.environ.get("TZ", "UTC"):
-        os.environ["TZ"] = tz or "UTC"
+    """Every run executes in its own child process, so process-global state is set from the plan.  Only what
+    differs from the state this process is known to be in is touched."""
+    if not _HOST_NOW:
+        _HOST_NOW.update(dict((k, "?") for k in HOST_PLAIN))       # unknown: set everything once
+    want = dict((k, d.get(k, HOST_PLAIN[k])) for k in HOST_PLAIN)
+    if want["host_logging"] != _HOST_NOW["host_logging"]:
+        import logging
+        logging.disable(logging.NOTSET if want["host_logging"] == "on" else logging.CRITICAL)
+    if want["host_tz"] != _HOST_NOW["host_tz"]:
+        import os
+        import time
+        os.environ["TZ"] = want["host_tz"] or "UTC"
         time.tzset()
+    if want["host_warnings"] != _HOST_NOW["host_warnings"]:
+        import warnings
+        warnings.simplefilter("error" if want["host_warnings"] == "error" else "ignore")
+    if want["host_np_err"] != _HOST_NOW["host_np_err"]:
+        import numpy as np
+        if want["host_np_err"] == "raise":
+            # division by zero, invalid operations and overflow raise.  Underflow stays ignored: with it raised the
+            # unchanged code itself refuses legal subnormal weights (np.float64 equity times 5e-324), i.e. that
+            # host setting is outside the domain in which the properties hold
+            np.seterr(divide="raise", over="raise", invalid="raise", under="ignore")
+        else:
+            np.seterr(divide="warn", over="warn", under="ignore", invalid="warn")
+    if want["host_decimal"] != _HOST_NOW["host_decimal"]:
+        import decimal
+        hd = want["host_decimal"]
+        ctxd = decimal.Context(prec=28, rounding=decimal.ROUND_HALF_EVEN,
+                               traps=[decimal.InvalidOperation, decimal.DivisionByZero, decimal.Overflow])
+        if hd == "prec6":
+            ctxd.prec = 6
+        elif hd == "round_down":
+            ctxd.rounding = decimal.ROUND_DOWN
+        elif hd == "trap_inexact":
+            ctxd.traps[decimal.Inexact] = True
+        decimal.setcontext(ctxd)
+    if want["host_pandas"] != _HOST_NOW["host_pandas"]:
+        import pandas as pd
+        hp = want["host_pandas"]
+        pd.set_option("display.date_dayfirst", hp == "dayfirst")
+        try:
+            pd.set_option("mode.copy_on_write", hp == "copy_on_write")
+        except Exception:
+            pass
+    for k in HOST_PLAIN:
+        if k != "host_optimize":
+            _HOST_NOW[k] = want[k]
     from .isolate import THROWAWAY
-    if d.get("host_optimize") and THROWAWAY[0] and not _OPTIMIZED[0]:
+    if want["host_optimize"] and THROWAWAY[0] and not _OPTIMIZED[0]:
         _OPTIMIZED[0] = True
         reload_repo_without_asserts()
 
